@@ -139,6 +139,7 @@ class HidDevice:
         self.write_fails = False
         self.writes = []
         self.on_report = None          # harness hook: called when a report becomes readable
+        self.blocked_until = -1.0      # writes raise BlockingIOError until this instant (output queue full)
         world.devices.append(self)
 
     # -- file interface
@@ -166,6 +167,9 @@ class HidDevice:
     def write(self, fd, data):
         if self.lost_mode is not None or self.write_fails or not self.present:
             raise OSError(19, "No such device")
+        if self.world.now < self.blocked_until:
+            # the device's output queue is full (O_NONBLOCK): try again later
+            raise BlockingIOError(11, "Resource temporarily unavailable")
         self.writes.append((self.world.now, data))
         self.on_write(data)
         return len(data)
